@@ -294,14 +294,34 @@ def judge(events):
 
 
 OPTION_SETS = [
-    {"DO_DIRECT_SITE_TARGETING": False},      # accepted and without effect on the pinned tree; a change that wires it must keep the service total (seed C14f)
     {"DO_BALANCED_CC": False}, {"DO_AREA_TARGETING": True}, {"DO_BALANCED_CC": False, "DO_AREA_TARGETING": True},
     {"DO_VERTICAL_GCC": True}, {"DO_ASSITED_HT": True}, {"DO_VERTICAL_GCC": True, "DO_ASSITED_HT": True, "DO_AREA_TARGETING": True},
     {"DO_EXERGY_TARGETING": True}, {"DO_DIRECT_SITE_TARGETING": False},
     {"DO_DIRECT_OPERATION_TARGETING": True}, {"DO_INDIRECT_PROCESS_TARGETING": True},
     {"DO_DIRECT_OPERATION_TARGETING": True, "DO_INDIRECT_PROCESS_TARGETING": True},
     {"DT_CONT": 0.0}, {"DT_PHASE_CHANGE": 0.0}, {"HTC": 2.5, "UTILITY_PRICE": 0.0},
+    # degenerate but legal SHAPES named by the statement, applied to the request (keys starting with "_" are not options)
+    {"_single_stream": True}, {"_duplicate_stream_names": True}, {"_unused_utilities": True}, {"_zero_duty_isothermal_stream": True},
 ]
+
+
+def reshape(req, opts):
+    """apply the shape variants of OPTION_SETS to a request; returns the real options"""
+    real = {k: v for k, v in opts.items() if not k.startswith("_")}
+    if opts.get("_single_stream"):
+        req["streams"] = req["streams"][:1]
+    if opts.get("_duplicate_stream_names"):
+        for st in req["streams"]:
+            st["name"] = "S"
+    if opts.get("_unused_utilities"):
+        req["utilities"] = list(req["utilities"]) + [
+            dict(name="VHP", type="Hot", t_supply=EMB_BASE.T(900), t_target=EMB_BASE.T(900), heat_flow=0.0, dt_cont=0.0, htc=1.0, price=1.0),
+            dict(name="CHW", type="Cold", t_supply=EMB_BASE.T(-900), t_target=EMB_BASE.T(-890), heat_flow=0.0, dt_cont=0.0, htc=1.0, price=1.0)]
+    if opts.get("_zero_duty_isothermal_stream"):
+        req["streams"] = list(req["streams"]) + [dict(zone=req["streams"][0]["zone"], name="Idle", t_supply=EMB_BASE.T(100), t_target=EMB_BASE.T(100),
+                                                      heat_flow=0.0, dt_cont=EMB_BASE.dT(50), htc=1.0)]
+    req["options"].update(real)
+    return real
 
 
 def drive_options(args):
@@ -310,7 +330,7 @@ def drive_options(args):
     fails = []
     try:
         req = request(case["S"], case["z"], case["ladder"], EMB_BASE)
-        req["options"].update(opts)
+        reshape(req, opts)
         out, mz = _OP["service"](req, project_name="Site", is_return_full_results=True)
         js = out.model_dump_json()
         back = json.loads(js)
@@ -336,7 +356,7 @@ def drive_options(args):
         zs = [zn for zn in walk(mz) if zn.identifier in kinds]
         if sum(1 for n in names if n.endswith("/Direct Integration")) != len(zs):
             fails.append("C14.one_DI_record_per_zone")
-        req2 = request(case["S"], case["z"], case["ladder"], EMB_BASE); req2["options"].update(opts)
+        req2 = request(case["S"], case["z"], case["ladder"], EMB_BASE); reshape(req2, opts)
         if _OP["service"](req2, project_name="Site").model_dump_json() != js:
             fails.append("C14.repeat_call_identical")
     except Exception as e:
@@ -353,6 +373,12 @@ def kf_area_zero_dt(v, f):
     """area targeting where a stream has a zero contribution: the driving force at the pinch is 0 and the log mean is refused"""
     return (bool(v.detail.get("options", {}).get("DO_AREA_TARGETING")) and v.clause == "C14.service_raises"
             and "Invalid temperature differences" in (v.detail.get("exc") or "") and any(s_["dtc"] == 0 for s_ in v.case["S"]))
+
+
+def kf_dead_stream(v, f):
+    """a stream with supply == target and a duty of exactly 0 never gets its bounds (KF-C19-dead at service level)"""
+    return (bool(v.detail.get("options", {}).get("_zero_duty_isothermal_stream")) and v.clause == "C14.service_raises"
+            and "_t_max" in (v.detail.get("exc") or ""))
 
 
 def kf_opzones(v, f):
@@ -532,6 +558,7 @@ def check(prop, tier, run: Run, replay_case=None):
         run.register_matcher("kf_indirect", kf_indirect)
         run.register_matcher("kf_opzones", kf_opzones)
         run.register_matcher("kf_area_zero_dt", kf_area_zero_dt)
+        run.register_matcher("kf_dead_stream", kf_dead_stream)
         base_cases = gen_cases("quick2").cases
         sel = sample(base_cases, 12 if tier == "quick" else 150, 5)
         jobs = [(i, c, o) for i, c in enumerate(sel) for o in OPTION_SETS]
